@@ -120,6 +120,11 @@ DATE_PATTERNS = [
     (('yyyy', 'MM', 'dd', 'HH', 'mm', 'ss', 'SSS'), ('-', '-', ' ', ':', ':', '.')),
     (('d', 'M', 'yy', 'HH', 'mm', 'ss'), ('/', '/', ' ', ':', ':')),
     (('yyyy', 'M', 'd'), ('/', '/')), (('HH', 'mm', 'ss', 'dd', 'MM', 'yyyy'), (':', ':', ' ', '.', '.')),
+    # ISO-ordered date and time whose fraction is set off by something other than '.': NOT the ISO 8601 layout
+    (('yyyy', 'MM', 'dd', 'HH', 'mm', 'ss', 'SSS'), ('-', '-', ' ', ':', ':', ':')),
+    (('yyyy', 'MM', 'dd', 'HH', 'mm', 'ss', 'SSS'), ('-', '-', 'T', ':', ':', ' ')),
+    (('yyyy', 'MM', 'dd', 'HH', 'mm', 'ss', 'SSS'), ('-', '-', ' ', ':', ':', '-')),
+    (('yyyy', 'MM', 'dd', 'HH', 'mm', 'ss', 'SSS'), ('-', '-', 'T', ':', ':', '.')),
 ]
 
 
@@ -158,7 +163,10 @@ def run_round_trips(b, tier, seed):
                 w = {'pattern': fmt, 'translated': tr, 'text': text}
                 b.case(('strptime', fmt, text))
                 if tr == 'ISO8601':
-                    got = pd.to_datetime(text, format='ISO8601').to_pydatetime()
+                    ok, got = b.guarded('C16.translated-format-parses',
+                                        lambda: pd.to_datetime(text, format='ISO8601').to_pydatetime(), w)
+                    if not ok:
+                        continue
                 else:
                     ok, got = b.guarded('C16.translated-format-parses', lambda: datetime.datetime.strptime(text, tr), w)
                     if not ok:
